@@ -263,6 +263,15 @@ ROUND11 = {
 }
 for _k, _v in ROUND11.items():
     CLAIMED[_k]["text"] += _v
+ROUND12 = {
+ "C01": " An old /lost+found directory unlinked from the root always restarts the check (C01.q); the directories e2fsck re-creates are extent mapped where the file system has extents (C01.r; genuine defect repaired).",
+ "C05": " The rebuilt directory's mapping is extended before its blocks are written, on every path (C05.k).",
+ "C09": " A new file size always clears the rest of its last block (C09.ab).",
+ "C12": " tune2fs offers the undo manager before any modifying call of main (C12.p).",
+ "C13": " The MMP block is written only behind a test of EXT2_FLAG_RW (C13.k).",
+}
+for _k, _v in ROUND12.items():
+    CLAIMED[_k]["text"] += _v
 for _k in CLAIMED:
     CLAIMED[_k]["text"] += " Names of locals, parameters and file-local functions are mapped onto the pinned tree's before any rule runs (renaming all of them is silent)."
 
